@@ -15,7 +15,9 @@ class Rec:
         self.samples = []
         self.evals = 0
 
-    def fail(self, clause, sig_extra, payload, cap=2):
+    def fail(self, clause, sig_extra, payload, cap=None):
+        import os
+        cap = cap if cap is not None else int(os.environ.get("VERIF_FAIL_CAP", "2"))
         ctx = self.ctx
         sig = dict({"clause": clause}, **sig_extra)
         known = core.match_known(self.pid, sig)
